@@ -119,15 +119,17 @@ def run(ctx) -> None:
     ctx.check(not bad, RP, "PollingEmitter passes diff paths unchanged", f"diff paths are converted before being put into events: {bad}", pe.loc)
 
     # ---- raw codecs
+    from ..fixtures import FX_CODEC, must_fire, raw_codec_calls
+
+    must_fire("C19/no-raw-codecs", raw_codec_calls, FX_CODEC)
     n = 0
     for mod in ("watchdog.observers.inotify", "watchdog.observers.polling", "watchdog.utils.dirsnapshot", "watchdog.observers.api", "watchdog.events", "watchdog.observers.inotify_buffer"):
         m = P.module(mod)
-        for x in ast.walk(m.tree):
-            if isinstance(x, ast.Call) and isinstance(x.func, ast.Attribute) and x.func.attr in ("decode", "encode"):
-                n += 1
-                ctx.viol(RN, f"{mod}: {ast.unparse(x)[:80]}", "raw .decode()/.encode() on a value in an emitter module: undecodable names would raise or be mangled (use os.fsdecode/os.fsencode)", f"{m.relpath}:{x.lineno}")
+        for x in raw_codec_calls(m.tree):
+            n += 1
+            ctx.viol(RN, f"{mod}: {ast.unparse(x)[:80]}", "raw .decode()/.encode() on a value in an emitter module: undecodable names would raise or be mangled (use os.fsdecode/os.fsencode)", f"{m.relpath}:{x.lineno}")
     if n == 0:
-        ctx.ok(RN, "no raw codec call in the anchored modules", "", nontrivial=True)
+        ctx.ok(RN, "no raw codec call in the anchored modules (detector checked on a positive fixture)", "", nontrivial=True)
     ctx.assumptions += ["os.fsdecode/os.fsencode round-trip every file name (surrogateescape)"]
 
 
